@@ -268,7 +268,7 @@ Definition get_as_struct_or_slice (data : gv) : option (gv * bool) :=
   | _ =>
     let v := deref1 (value_of data) in
     match rv_v v with
-    | VStruct _ | VDec _ => Some (rv_v v, true)
+    | VStruct _ | VDec _ | VMap _ _ _ _ => Some (rv_v v, true)
     | VSlice t _ xs | VArray t xs =>
       match xs with
       | [] => Some (VSlice EAny false [], false)
